@@ -419,6 +419,18 @@ func (p *sessionPort) exec(f []string) []string {
 			p.cur.mu.Unlock()
 		}
 		return nil
+	case "mstate":
+		return []string{"mstate"}
+	case "brk":
+		// the broker closes the connection now (no-op without a live one) and forgets what it had queued
+		p.prefeed = nil
+		p.dials = nil
+		p.store.fSave, p.store.fDel, p.store.fLoad = false, false, false
+		if p.cur != nil && !p.cur.isClosed() {
+			p.cur.feed(chunk{kind: "eof"})
+			return p.flush(nil, true)
+		}
+		return nil
 	case "alias":
 		p.store.alias = true
 		return nil
